@@ -512,16 +512,16 @@ func AnyStr(name string) string {
 // maxLen: list / map sizes are chosen in [0, maxLen).
 var MaxLenQuick = 3
 
-// ThoroughLenCap, when > 0, bounds the sizes of the thorough tier too (pairs
-// of nested containers grow with the square of the number of values).
+// ThoroughLenCap, when > 0, is the size bound of the thorough tier for the
+// harness that sets it. By default the thorough tier keeps the quick tier's
+// container sizes - the number of value combinations grows with a power of
+// the sizes, and what the thorough tier widens is the type catalogue (TC2),
+// the string pool and each harness's own depth / length / width parameters.
 var ThoroughLenCap = 0
 
 func maxLen() int {
-	if sv.Thorough() {
-		if ThoroughLenCap > 0 {
-			return ThoroughLenCap
-		}
-		return 4
+	if sv.Thorough() && ThoroughLenCap > 0 {
+		return ThoroughLenCap
 	}
 	return MaxLenQuick
 }
